@@ -395,6 +395,65 @@ func c20Denied(r *rng, id string) {
 	emit("C20 api id=%s stages=%s calls=%d loss=0 table=%s bad=%s", id, stages, len(log)+10, strings.Join(table, ","), bs)
 }
 
+// c20Alone: Leave on a node whose peers have all gone (left gracefully or declared dead) has nobody to tell:
+// it returns nil at once, whatever its timeout (also 0 = wait for ever); with a live or suspected peer and
+// nothing transmitted it waits for its timeout.
+func c20Alone(r *rng, id string) {
+	n, err := newCnode(ccfg{name: "S"})
+	if err != nil {
+		return
+	}
+	defer n.m.Shutdown()
+	m := n.m
+	vsn := []uint8{1, 5, 2, 0, 0, 0}
+	peers := 1 + r.intn(4)
+	gone := 0
+	var states []string
+	for i := 1; i <= peers; i++ {
+		name := fmt.Sprintf("n%d", i)
+		ml.VerifAliveNode(m, 1, name, []byte{10, 0, 0, byte(i)}, 7946, nil, vsn, nil, false)
+		switch r.intn(4) {
+		case 0:
+			ml.VerifDeadNode(m, 1, name, name) // left
+			states = append(states, "l")
+			gone++
+		case 1:
+			ml.VerifDeadNode(m, 1, name, "S") // dead
+			states = append(states, "d")
+			gone++
+		case 2:
+			ml.VerifSuspectNode(m, 1, name, "S")
+			states = append(states, "s")
+		default:
+			states = append(states, "a")
+		}
+	}
+	timeout := []time.Duration{0, 300 * time.Millisecond, time.Second}[r.intn(3)]
+	if gone < peers && timeout == 0 {
+		timeout = 300 * time.Millisecond // somebody is there and nothing is transmitted here: a bounded wait
+	}
+	done := make(chan string, 1)
+	start := time.Now()
+	go func() {
+		defer func() {
+			if rec := recover(); rec != nil {
+				done <- "panic"
+			}
+		}()
+		if err := m.Leave(timeout); err != nil {
+			done <- "err"
+		} else {
+			done <- "nil"
+		}
+	}()
+	res := "blocked"
+	select {
+	case res = <-done:
+	case <-time.After(timeout + 4*time.Second):
+	}
+	emit("C20 alone id=%s peers=%s timeoutms=%d res=%s tookms=%d", id, strings.Join(states, ""), timeout.Milliseconds(), res, time.Since(start).Milliseconds())
+}
+
 func TestC20(t *testing.T) {
 	forCases(6, 203, "x", func(i int, r *rng, id string) { lockStir("C20", r, id) })
 	n := envInt("VERIF_N", 120)
@@ -405,4 +464,5 @@ func TestC20(t *testing.T) {
 		bubble(t, "C20", id, func() { c20Api(r, id) })
 	})
 	forCases(n/4+6, 202, "d", func(i int, r *rng, id string) { c20Denied(r, id) })
+	forCases(n/6+8, 204, "l", func(i int, r *rng, id string) { c20Alone(r, id) })
 }
